@@ -24,3 +24,11 @@ H("c11_spinlock", "C11", "sched", ["harness/c11_spinlock.cc"], args={"quick": ["
   design_ref="5/C11")
 H("c11_tsan", "C11", "tsan", ["harness/c11_tsan.cc"], aux=True, args={"quick": ["300"], "thorough": ["3000"]},
   note="free-running ThreadSanitizer pass over the same bodies (sampling; assumption check for the sequentially consistent scheduler)")
+
+# --- C01 / C02 / C03: batch processors under the scheduler ------------------------------------------
+BATCH_SDK = ["common", "version", "resource", "trace", "logs"]
+for _p in ("C01", "C02", "C03"):
+    H("batch_" + _p.lower(), _p, "sched", ["harness/batch_harness.cc"], sdk=BATCH_SDK,
+      args={"quick": ["--oracle=" + _p], "thorough": ["--oracle=" + _p]},
+      what="real BatchSpanProcessor and BatchLogRecordProcessor (with the real CircularBuffer) driven by producer / flusher / shutdown threads; oracle " + _p,
+      design_ref="5/" + _p)
